@@ -344,12 +344,15 @@ def rule_flow_admit_sums(ctx):
                 if e[0] == 'call' and e[1] in [a for a, _ in admits(ctx)]:
                     cand = e[2][0]
                     fr = [x for x in subterms(cand) if isinstance(x, tuple) and x and x[0] == 'call' and str(x[1]).endswith('FrequencySketch::frequency')]
-                    ok = len(fr) == 1 and any((isinstance(y, tuple) and y and y[0] == 'param' and b.local_name(y[1]) in ('hash', 'kh')) for y in subterms(fr[0][2][1]))
+                    # own hash: (sync) taken from the op's key-hash field, (unsync) the handler's hash parameter
+                    key_t_ = (upsert_role(ctx) or {}).get('key_t') if not caller.startswith('unsync::') else None
+                    ok = len(fr) == 1 and any((isinstance(y, tuple) and y and y[0] == 'param' and b.local_name(y[1]) in ('hash', 'kh')) or (key_t_ is not None and y == key_t_)
+                                              for y in subterms(fr[0][2][1]))
                     # the candidate's weight is the inserted entry's weight, unmodified
                     cw = cand[3][0] if isinstance(cand, tuple) and cand[0] == 'aggr' and cand[3] else None
                     cw0 = strip_cast(cw) if cw is not None else None
-                    wok = isinstance(cw0, tuple) and cw0[0] == 'param' and b.local_ty(cw0[1])['s'] == 'u32' and \
-                        (caller.startswith('unsync::') or cw0[1] == (upsert_role(ctx) or {}).get('new'))
+                    wok = (isinstance(cw0, tuple) and cw0[0] == 'param' and b.local_ty(cw0[1])['s'] == 'u32' and caller.startswith('unsync::')) or \
+                        (not caller.startswith('unsync::') and cw0 == (upsert_role(ctx) or {}).get('new_t'))
                     if not wok:
                         r.violate(caller, 'candidate-weight', 'weight', 'the candidate passed to the admission scan weighs `%s` instead of the inserted entry\'s own weight: the prefix it must beat is too short / long' % fmt(cw)[:80],
                                   where=ctx.where(caller, e[3]), expected='EntrySizeAndFrequency::new(policy_weight)')
@@ -375,12 +378,12 @@ def rule_admission_outcomes(ctx):
         if kind == 'sync':
             from .roles import upsert_role
             ur = upsert_role(ctx)
-            wp = [ur['new']] if ur and ur['nid'] == nid else []
+            wp = [ur['new_t']] if ur and ur['nid'] == nid else []
         else:
-            wp = [i for i in range(1, b.argc + 1) if b.local_ty(i)['s'] == 'u32']
+            wp = [('param', i) for i in range(1, b.argc + 1) if b.local_ty(i)['s'] == 'u32']
         if len(wp) != 1:
             raise CheckFailure('MUST-admit-or-remove: weight parameter of %s not found' % nid)
-        W = ('param', wp[0])
+        W = wp[0]
         remove_set = HASHMAP_REMOVE if kind == 'unsync' else DASHMAP_REMOVE
         paths = [p for p in _run(ctx, nid, inline_depth=3, loop_visits=2,
                                  inline_pred=lambda n_, bb, d: False if ('handle_remove' in n_) else None) if not p.diverged]
@@ -460,6 +463,8 @@ def rule_admission_outcomes(ctx):
     # CMP-capacity: the fits predicate itself
     for nid in (named(ctx, 'unsync.has_capacity'), named(ctx, 'sync.has_capacity')):
         if nid not in prog.bodies:
+            if nid.startswith('unsync::') or ctx.has_sync:
+                raise CheckFailure('CMP-capacity: the capacity predicate (%s) was not found' % nid)
             continue
         for p in _run(ctx, nid, inline_depth=2):
             if p.diverged:
@@ -467,12 +472,46 @@ def rule_admission_outcomes(ctx):
             ret = p.ret
             if isinstance(ret, tuple) and ret[0] == 'cmp':
                 la = lin(ret[2])
-                ok = ret[1] == 'le' and has_field(ret[3], ('max_capacity',)) and len(la) == 2 and all(s_ == 1 for s_, x in la) and \
-                    any(isinstance(strip_cast(x), tuple) and strip_cast(x)[0] == 'param' for s_, x in la)
+                ok = ret[1] == 'le' and _is_capacity(ctx, r, nid, ret[3]) and len(la) == 2 and all(s_ == 1 for s_, x in la) and \
+                    any(isinstance(strip_cast(x), tuple) and strip_cast(x)[0] == 'param' and prog.bodies[nid].local_ty(strip_cast(x)[1])['s'] == 'u32' for s_, x in la)
                 r.instance(function=nid, predicate=fmt(ret), ok=ok)
                 if not ok:
                     r.violate(nid, 'capacity-predicate', fmt(ret)[:60], 'the capacity predicate is `%s`' % fmt(ret), where=ctx.where(nid), expected='weighted_size + candidate_weight <= max_capacity')
     return r
+
+
+def _is_capacity(ctx, r, nid, t):
+    """Is term `t` (inside role function nid) the configured capacity: the max_capacity field itself, or the payload of an Option<u64>
+    parameter that every call site fills with the max_capacity field."""
+    if has_field(t, ('max_capacity',)):
+        return True
+    prog = ctx.prog
+    b = prog.bodies[nid]
+    t0 = strip_cast(t)
+    while isinstance(t0, tuple) and t0 and t0[0] == 'payload':
+        t0 = t0[1]
+    if not (isinstance(t0, tuple) and t0 and t0[0] == 'param' and b.local_ty(t0[1])['s'] == 'std::option::Option<u64>'):
+        return False
+    key = ('cap-param', nid, t0[1])
+    if key not in ctx.cache:
+        ok, sites = True, 0
+        for c in sorted(prog.callers().get(nid, ())):
+            root = prog.bodies[c].root or c
+            try:
+                ps = ctx.symex(inline_depth=3, loop_visits=2, inline_pred=lambda n_, bb, d, _n=nid: False if n_ == _n else None).run(root)
+            except PathLimit:
+                raise CheckFailure('capacity argument of %s: path limit in caller %s' % (nid, root))
+            for p in ps:
+                for e in p.events:
+                    if e[0] == 'call' and e[1] == nid and len(e[2]) >= t0[1]:
+                        sites += 1
+                        if not has_field(e[2][t0[1] - 1], ('max_capacity',)):
+                            ok = False
+                            r.violate(root, 'capacity-argument', nid.split('::')[-1], '%s hands `%s` to %s as the capacity: not the configured max_capacity' % (
+                                root, fmt(e[2][t0[1] - 1])[:60], nid), where=ctx.where(root, e[3]), expected='self.max_capacity')
+        r.instance(function=nid, capacity_from_parameter=t0[1], call_sites_checked=sites, ok=ok and sites > 0)
+        ctx.cache[key] = ok and sites > 0
+    return ctx.cache[key]
 
 
 def rule_cmp_evict(ctx):
@@ -551,6 +590,8 @@ def rule_cmp_evict(ctx):
     # weights_to_evict role
     for nid in (named(ctx, 'unsync.weights_to_evict'), named(ctx, 'sync.weights_to_evict')):
         if nid not in prog.bodies:
+            if nid.startswith('unsync::') or ctx.has_sync:
+                raise CheckFailure('CMP-evict: the weights_to_evict role (%s) was not found' % nid)
             continue
         for p in _run(ctx, nid, inline_depth=2):
             if p.diverged:
@@ -558,7 +599,7 @@ def rule_cmp_evict(ctx):
             ret = p.ret
             if ret == ('c', 0):
                 continue
-            ok = isinstance(ret, tuple) and ret[0] == 'bin' and ret[1] == 'saturating_sub' and has_field(ret[2], ('weighted_size',)) and has_field(ret[3], ('max_capacity',))
+            ok = isinstance(ret, tuple) and ret[0] == 'bin' and ret[1] == 'saturating_sub' and has_field(ret[2], ('weighted_size',)) and _is_capacity(ctx, r, nid, ret[3])
             r.instance(function=nid, returns=fmt(ret), ok=ok)
             if not ok:
                 r.violate(nid, 'weights-to-evict', fmt(ret)[:50], 'weights_to_evict is `%s`' % fmt(ret), where=ctx.where(nid), expected='weighted_size.saturating_sub(max_capacity)')
